@@ -5,8 +5,8 @@
                        offset counter, sorted cross-reference table with 20-byte entries, trailer /Size,
                        startxref, %%EOF), object bodies opaque.
    Model.check_file  : independent strict, non-repairing checker of a byte string. *)
-From Coq Require Import NArith List Bool.
-From PV Require Import C18.Model C18.ProofsBase C18.ProofsXref C18.ProofsLayout C18.ProofsXStream.
+From Coq Require Import NArith List Bool Sorting.Permutation.
+From PV Require Import C18.Model C18.ProofsBase C18.ProofsXref C18.ProofsLayout C18.ProofsXStream C18.ProofsFreeList.
 Import ListNotations.
 Open Scope N_scope.
 
@@ -109,6 +109,25 @@ Theorem C18_int64ToBuf_overflow : forall (v : N) (w : nat),
 Proof. exact int64ToBuf_overflow. Qed.
 Print Assumptions C18_int64ToBuf_overflow.
 
+(* (8d) Free list repair on read (EnsureValidFreeList = validateFreeList + handleDanglingFree, Model.
+   ensure_valid_free_list): for EVERY head link h and EVERY list of free entries with ARBITRARY links and
+   generations -- any number of damaged links (to in-use or missing objects, to itself, back to an earlier
+   entry, beyond /Size), in EVERY order (the order stands for Go's map iteration / anyKey choices) -- the
+   result is ONE chain 0 -> c1 -> ... -> cn -> 0 (pathb: each link is the number of the next chain member),
+   and the chain members plus the dead entries (generation 65535, link 0) are exactly the free entries.
+   With distinct object numbers (map keys) no entry occurs twice. *)
+Theorem C18_free_list_chain : forall (h : N) (frees : list ent),
+  let '(h', c, d) := ensure_valid_free_list h frees in
+  pathb h' c 0 = true /\ Forall (fun x => e_b x = 65535 /\ e_a x = 0) d /\
+  Permutation (map e_nr (c ++ d)) (map e_nr frees).
+Proof. exact ensure_valid_chain. Qed.
+Print Assumptions C18_free_list_chain.
+
+Theorem C18_free_list_chain_nodup : forall (h : N) (frees : list ent), NoDup (map e_nr frees) ->
+  let '(_, c, d) := ensure_valid_free_list h frees in NoDup (map e_nr (c ++ d)).
+Proof. exact ensure_valid_nodup. Qed.
+Print Assumptions C18_free_list_chain_nodup.
+
 (* (9) REFUTED at full strength: the writer copies xRefTable.Size verbatim.  A table whose highest
    numbered object is neither written nor free (what pdfcpu produces when the source's last object
    was its cross-reference stream: objects 0..10 present, Size 12) yields a file that the strict
@@ -160,6 +179,13 @@ Example C18_width_nonvacuous :
   length (row_bytes (w2_width 70001 900) (mk_xrow 2 70000 3)) = 6%nat /\
   length (row_bytes 2 (mk_xrow 2 70000 3)) = 6%nat (* one byte more than the 5 that /W [1 2 2] declares *).
 Proof. vm_compute. repeat split; congruence. Qed.
+
+(* three damaged links (object 0 -> 3; 3, 4 and 6 point at in-use objects 5, 7, 8), two more free entries *)
+Example C18_free_list_three_faults :
+  ensure_valid_free_list 3 [mk_ent 3 5 1 true; mk_ent 4 7 1 true; mk_ent 6 8 1 true; mk_ent 10 11 1 true; mk_ent 11 0 1 true]
+  = (11, [mk_ent 11 10 1 true; mk_ent 10 6 1 true; mk_ent 6 3 1 true; mk_ent 3 4 1 true; mk_ent 4 0 1 true], []) /\
+  True.
+Proof. vm_compute. split; reflexivity. Qed.
 
 Example C18_sample_wf : forall e, wf (sample e).
 Proof.
